@@ -88,6 +88,8 @@ def site_def(x):
 
 def run(prop, title, obligations, ctx, explanation, assumptions, level="other", undecided=""):
     t0 = time.time()
+    lines = []
+    out = lines.append
     tier = ctx.tier
     known, fixed = load_known()
     records = []
@@ -136,25 +138,25 @@ def run(prop, title, obligations, ctx, explanation, assumptions, level="other", 
     wall = time.time() - t0 + ctx.prep_s
     os.makedirs(os.path.join(VERIF, "out", prop), exist_ok=True)
     # stdout
-    print("== %s %s [%s] : %d obligations, %d discharged, %d instances ==" % (prop, title, tier, n_ob, n_dis, n_inst))
+    out("== %s %s [%s] : %d obligations, %d discharged, %d instances ==" % (prop, title, tier, n_ob, n_dis, n_inst))
     for r in records:
-        print("  [%s] %-10s %-9s inst=%-3d %s" % (
+        out("  [%s] %-10s %-9s inst=%-3d %s" % (
             {"discharged": "ok", "violated": "FAIL", "known-finding": "known"}[r["status"]], r["id"], r["rule"], r["instances"],
             r["obligation"][:110]))
         for v in r["violations"]:
-            print("        -> %s: %s" % (v["site"], v["msg"].split("\n")[0][:300]))
+            out("        -> %s: %s" % (v["site"], v["msg"].split("\n")[0][:300]))
     seen = set()
     for key, kf, v in known_hits:
         if key in seen:
             continue
         seen.add(key)
-        print("KNOWN-FINDING: property=%s %s [%s at %s]" % (prop, kf.get("what", ""), key, v["site_s"]))
+        out("KNOWN-FINDING: property=%s %s [%s at %s]" % (prop, kf.get("what", ""), key, v["site_s"]))
     for i, (ob, v) in enumerate(violations):
         path = os.path.join(VERIF, "out", prop, "violation-%d.json" % i)
         with open(path, "w") as fh:
             json.dump({"property": prop, "obligation": ob.id, "rule": ob.rule, "what": ob.desc, "key": v["key"],
                        "site": v["site_s"], "message": v["msg"], "tier": tier}, fh, indent=1)
-        print("VIOLATION property=%s replay=%s" % (prop, path))
+        out("VIOLATION property=%s replay=%s" % (prop, path))
     ev = {
         "property_id": prop, "tier": tier, "seed": int(os.environ.get("VERIF_SEED", "0") or 0), "level": level,
         "coverage": {
@@ -178,4 +180,8 @@ def run(prop, title, obligations, ctx, explanation, assumptions, level="other", 
     os.makedirs(os.path.join(VERIF, "evidence"), exist_ok=True)
     with open(os.path.join(VERIF, "evidence", prop + ".json"), "w") as fh:
         json.dump(ev, fh, indent=1)
+    try:
+        print("\n".join(lines), flush=True)
+    except BrokenPipeError:
+        pass
     return 1 if violations else 0
